@@ -79,6 +79,10 @@ def gen_in_site(rng, name, idx, opts):
             site['fallbacksAsFunction'] = rng.random() < 0.4
         elif opts.get('faults') and rng.random() < 0.05:
             site['fallbacks'] = 'raises'
+    if not opts.get('policies') and opts.get('fallbacks') and rng.random() < 0.35:
+        # a renamed / split input that keeps older aliases as fallbacks - aliases that other live inputs may still use
+        site['fallbacks'] = rng.sample(['fetch', 'load', 'cfg', 'in0', 'in1', 'gone'], rng.randint(1, 2))
+        site['fallbacksAsFunction'] = rng.random() < 0.4
     # the body's result is a function of the alias and the captured arguments only (the design's premise)
     keyparts = [{'v': 'a%d' % p} for p in cap_pos if not (isinstance(resolver, dict) and False)]
     if isinstance(resolver, dict) and resolver['arg'] not in cap_pos:
